@@ -305,7 +305,7 @@ Definition fstep (φ : fifo_st) (e : event) : option fifo_st :=
   | ESubCall b => Some (mkf (f_ret φ) ((b, f_ret φ) :: f_snaps φ) (f_started φ))
   | ESubRet a => Some (mkf (a :: f_ret φ) (f_snaps φ) (f_started φ))
   | EStart b =>
-      if forallb (fun sn : job * list job => negb (N.eqb (fst sn) b) || forallb (fun a => mem a (f_started φ)) (snd sn)) (f_snaps φ)
+      if forallb (fun sn : job * list job => if N.eqb (fst sn) b then forallb (fun a => mem a (f_started φ)) (snd sn) else true) (f_snaps φ)
       then Some (mkf (f_ret φ) (f_snaps φ) (b :: f_started φ)) else None
   | _ => Some φ
   end.
